@@ -16,7 +16,7 @@ from typing import Any, Dict, List, Optional
 from vt import sym
 from vt.props._recv import InlineExecutor, Lab, ackable, encode, make_broker
 
-KINDS = ("valid", "malformed", "unknown")
+KINDS = ("valid", "malformed", "unknown", "malformed_raw")
 OUTCOMES = ("return", "raise", "backend_fail", "hook_raise", "never", "timeout")
 
 
@@ -83,6 +83,10 @@ def run(c: sym.Ctx, spec: Dict[str, Any], on_step: Any = None) -> Run:
     for i in range(M):
         if r.kinds[i] == "malformed":
             data = b"not-json-%d" % i
+        elif r.kinds[i] == "malformed_raw":
+            # an un-wrapped bytes payload whose content happens to equal the receiver's internal end-of-queue marker
+            msgs.append(bytes([45, 49]))
+            continue
         else:
             labels = {"hook_raise": True} if r.outcomes[i] == "hook_raise" else ({"timeout": 5} if r.outcomes[i] == "timeout" else {})
             data = encode(broker, "t" if r.kinds[i] == "valid" else "nope", f"id{i}", [i], labels)
